@@ -280,6 +280,10 @@ def write_evidence(pid, tier, seed, tgt, cov, wall, violations, assumptions):
     }
     os.makedirs(os.path.join(VERIF, "evidence"), exist_ok=True)
     path = os.path.join(VERIF, "evidence", pid + ".json")
+    if os.path.realpath(REPO) != "/repo":
+        # sensitivity trial on a scratch copy: never overwrite the evidence of the real tree
+        os.makedirs(os.path.join(BUILD, pid), exist_ok=True)
+        path = os.path.join(BUILD, pid, "evidence-trial.json")
     with open(path + ".tmp", "w") as f:
         json.dump(ev, f, indent=1)
     os.replace(path + ".tmp", path)
